@@ -46,7 +46,7 @@ Prods == [
   Expr     |-> << <<"Atom">>, <<"Atom", "op", "Expr">>, <<"<par", "lp", "Expr", "rp", ">par">>,
                   <<"<par", "lp", "Select", "rp", ">par">>, <<"Func">>, <<"Case">>,
                   <<"Ref", "dcolon", "typename">>, <<"TypedLit">>, <<"Ref", "<br", "lbr", "num", "rbr", ">br">>, <<"Atom">> >>,
-  Atom     |-> << <<"Ref">>, <<"num">>, <<"str">>, <<"ph">>, <<"null">>, <<"Ref">> >>,
+  Atom     |-> << <<"Ref">>, <<"num">>, <<"str">>, <<"ph">>, <<"null">>, <<"Ref">>, <<"sign", "Ref">> >>,
   Lit      |-> << <<"num">>, <<"str">>, <<"ph">> >>,
   Func     |-> << <<"<fn", "fname", "<par", "lp", "Args", "rp", ">par", ">fn">>,
                   <<"<fn", "fname", "<par", "lp", "Args", "rp", ">par", "over", "<par", "lp", "partition", "by", "Ref", "rp", ">par", ">fn">> >>,
